@@ -471,3 +471,15 @@ Qed.
 Example options_refine_spec_example :
   class_aliasing go_SYNCHRO_DEFAULT_OPTIONS lists_config = false /\ class_nan lists_config = false.
 Proof. vm_compute. split; reflexivity. Qed.
+
+(* the defaults read from an options object built with an empty configuration are the documented ones
+   (stats_collecting_period excepted: see collecting_period_default_differs_from_doc) *)
+Lemma defaults_as_documented :
+  go_default_ttl = 1 /\ go_default_timeout = 15 /\ go_default_ticks = 2 /\ go_default_histo = 200
+  /\ go_default_auto_fence = false /\ go_default_irix = false
+  /\ go_default_event_link = go_EventLinks_NONE /\ go_default_conciliation = go_ConciliationStrategies_USER
+  /\ go_default_starting = go_StartingStrategies_CONFIG
+  /\ go_default_failure = go_SupvisorsFailureStrategies_CONTINUE
+  /\ go_default_host_stats = true /\ go_default_proc_stats = true
+  /\ go_default_stats_periods = [10] /\ go_default_tail_limit = 1024.
+Proof. vm_compute. repeat split; reflexivity. Qed.
